@@ -96,6 +96,19 @@ def run_case(base, cls, inplace, rs, entry='node', share=False, foreign_keys=Fal
     else:
         tree_abs = [_with_oids(a, o, table) for a, o in zip(root_abs['b'][0], target)]
         orig_objs = list(target)
+    # terms of the (possibly foreign) key / handle objects and of everything below them, taken BEFORE the visit: a
+    # scoped node below a foreign key is updated in place (no rebuild_scopes), which would change the exported
+    # term of every foreign ancestor afterwards and make the record look as if it had no key in the original
+    pre_terms = {}
+    for mk, mv in mapper.items():
+        for top in list(mk if isinstance(mk, tuple) else (mk,)) + list(mv if isinstance(mv, tuple) else ((mv,) if mv is not None else ())):
+            try:
+                nodes = irmod.FindNodes(irmod.Node).visit(top)
+            except Exception:  # pylint: disable=broad-except
+                nodes = []
+            for n in [top] + list(nodes):
+                if id(n) not in pre_terms:
+                    pre_terms[id(n)] = T.strip(T.Exporter().node(n))
     outcome = 'ok'
     ret = None
     old = signal.signal(signal.SIGALRM, _alarm)
@@ -119,7 +132,7 @@ def run_case(base, cls, inplace, rs, entry='node', share=False, foreign_keys=Fal
             for k, v in tr.rebuilt.items():
                 # key: the id of the original object, or (for an equal object that is not part of the tree, e.g. a
                 # foreign key object spliced in by a self-containing handle) its own exported term
-                rebuilt.append({'ko': table.get(id(k), 0), 'kt': T.strip(T.Exporter().node(k)),
+                rebuilt.append({'ko': table.get(id(k), 0), 'kt': pre_terms.get(id(k)) or T.strip(T.Exporter().node(k)),
                                 'v': ex.index.get(id(v), 0) if v is not None else 0})
     orig = T.Exporter(table).seq(orig_objs)
     case = {
